@@ -20,7 +20,7 @@ SOURCES = ['silk/dec_API.c', 'silk/decode_indices.c', 'silk/decode_pulses.c', 's
            'celt/static_modes_float.h', 'celt/modes.c']
 WRAPPED = ['silk_Decode', 'silk_decode_indices', 'silk_decode_pulses', 'silk_stereo_decode_pred',
            'silk_stereo_decode_mid_only', 'celt_decode_with_ec', 'celt_decode_with_ec_dred',
-           'ec_dec_bit_logp', 'ec_dec_uint', 'ec_dec_bits', 'ec_dec_icdf', 'ec_decode_bin', 'ec_dec_update',
+           'ec_dec_bit_logp', 'ec_dec_uint', 'ec_dec_bits', 'ec_dec_icdf', 'ec_decode_bin', 'ec_decode', 'ec_dec_update',
            'clt_compute_allocation']
 WRAP = ['-Wl,' + ','.join('--wrap=' + s for s in WRAPPED)]
 
